@@ -125,9 +125,20 @@ Proof.
   intros Hlt. rewrite Hc. unfold n. rewrite copy_len_fits by assumption. apply firstn_all.
 Qed.
 
-(* on valid text the cut loses fewer than 4 bytes (a character is at most 4 bytes): the kept prefix is at
-   least min(cap-1,len)-3 bytes long.  Proved through the automaton: among any 4 consecutive positions of a
-   valid string one is a character boundary. *)
+(* the cut is the LARGEST character boundary that leaves room for the terminator: nothing that would
+   still fit is dropped *)
+Lemma floor_char_boundary_max bs i j :
+  is_char_boundary bs j = true -> (j <= i)%nat -> (j <= floor_char_boundary bs i)%nat.
+Proof.
+  induction i as [|k IH]; intros Hb Hle; cbn [floor_char_boundary].
+  - destruct (is_char_boundary bs 0); lia.
+  - destruct (is_char_boundary bs (S k)) eqn:E; [exact Hle|].
+    apply IH; [exact Hb|]. destruct (Nat.eq_dec j (S k)) as [->|Hne]; [congruence | lia].
+Qed.
+
+Lemma copy_len_max cap s j :
+  is_char_boundary s j = true -> (j <= cap - 1)%nat -> (j <= length s)%nat -> (j <= copy_len true cap s)%nat.
+Proof. intros Hb H1 H2. unfold copy_len. apply floor_char_boundary_max; [exact Hb | lia]. Qed.
 
 (* ------------------------------------------------------------------ *)
 (* projections through the state setters *)
@@ -508,3 +519,175 @@ Definition witness_up : list op :=
 
 Definition witness_free_u16 : list op := [OPhoneSeq 3 4096; OFree 4096].
 Definition witness_double_free : list op := [OGetHeap NulNull [65] 4096; OFree 4096; OFree 4096].
+
+(* ------------------------------------------------------------------ *)
+(* strings: over all call sequences every string the model hands to the caller is NUL-terminated valid
+   UTF-8, provided the texts the editor supplies are valid UTF-8 without U+0000 (Rust Strings are valid
+   UTF-8 by type; NUL-freedom is dict_wf + printable keys) *)
+
+Definition text_okb (t : bytes) : bool := utf8_valid t && no_nul t.
+Definition entry_okb (e : entry) : bool := text_okb (fst e) && text_okb (snd e).
+
+Definition op_texts_okb (o : op) : bool :=
+  match o with
+  | OGetHeap _ t _ => utf8_valid t
+  | OGetStatic _ (Some t) => text_okb t
+  | OCandEnum (Some l) => forallb text_okb l
+  | OUpEnum snap => forallb entry_okb snap
+  | _ => true
+  end.
+
+Definition cstring_ok (c : bytes) : Prop :=
+  exists t, c = t ++ [0] /\ utf8_valid t = true /\ no_nul t = true.
+
+Definition res_ok (cfg : config) (r : res) : Prop :=
+  match r with
+  | RHeap _ c => cstring_ok c
+  | RStatic b c => length c = N.to_nat (cap_of cfg b) /\ has_nul c = true /\ utf8_valid (c_str c) = true
+  | RUpGet p b => (forall x, p = Some x -> cstring_ok x) /\ (forall x, b = Some x -> cstring_ok x)
+  | _ => True
+  end.
+
+Definition up_rest (h : up_handle) : list entry :=
+  match h with UpOwn r => r | UpBorrow _ _ r => r end.
+
+Definition texts_inv (s : state) : Prop :=
+  (forall l, s_cand s = Some l -> forallb text_okb l = true) /\
+  (forall l, s_kb s = Some l -> forallb text_okb l = true) /\
+  (forall h, s_up s = Some h -> forallb entry_okb (up_rest h) = true).
+
+Definition good_strings (cfg : config) : Prop :=
+  cstr_reserve cfg = true /\ (forall b, 1 <= cap_of cfg b) /\ forallb text_okb (kb_names cfg) = true.
+
+Lemma cstring_ok_intro t : utf8_valid t = true -> no_nul t = true -> cstring_ok (t ++ [0]).
+Proof. intros Hv Hn. now exists t. Qed.
+
+Lemma text_okb_split t : text_okb t = true -> utf8_valid t = true /\ no_nul t = true.
+Proof. unfold text_okb. intros H. now apply andb_true_iff in H. Qed.
+
+Lemma alloc_cstring_res cfg s t a : utf8_valid t = true -> no_nul t = true -> res_ok cfg (snd (alloc_cstring s t a)).
+Proof. intros Hv Hn. cbn. now apply cstring_ok_intro. Qed.
+
+Lemma get_heap_res cfg s pol t a : utf8_valid t = true -> res_ok cfg (snd (get_heap s pol t a)).
+Proof.
+  intros Hv. unfold get_heap. destruct (no_nul t) eqn:Hn; [now apply alloc_cstring_res|].
+  destruct pol; cbn [snd res_ok]; auto. now apply (alloc_cstring_res cfg s [] a).
+Qed.
+
+Lemma write_static_res cfg s b t : good_strings cfg -> text_okb t = true -> res_ok cfg (snd (write_static cfg s b t)).
+Proof.
+  intros [Hres [Hcap _]] Ht. apply text_okb_split in Ht as [Hv Hn].
+  unfold write_static. cbn [snd res_ok]. rewrite Hres.
+  assert (H1 : (1 <= N.to_nat (cap_of cfg b))%nat) by (specialize (Hcap b); lia).
+  destruct (copy_cstr_reserve_spec _ t H1 Hv Hn) as [_ [Hnul [_ [Hval _]]]].
+  split; [apply copy_cstr_length|]. now split.
+Qed.
+
+Lemma up_get_item_res cfg pb bb e : entry_okb e = true -> res_ok cfg (up_get_item cfg pb bb e).
+Proof.
+  intros He. unfold entry_okb in He. apply andb_true_iff in He as [Hp Hb].
+  apply text_okb_split in Hp as [Hpv Hpn]. apply text_okb_split in Hb as [Hbv Hbn].
+  unfold up_get_item, write_user.
+  destruct pb as [n|]; destruct bb as [m|];
+    repeat match goal with |- context [if ?c then _ else _] => destruct c end;
+    cbn [res_ok]; auto; split; intros x Hx; inversion Hx; subst; now apply cstring_ok_intro.
+Qed.
+
+Lemma get_heap_texts s pol t a : texts_inv s -> texts_inv (fst (get_heap s pol t a)).
+Proof. unfold get_heap, alloc_cstring. destruct (no_nul t); [auto|]. destruct pol; auto. Qed.
+
+Lemma do_free_texts cfg s p : texts_inv s -> texts_inv (fst (do_free cfg s p)).
+Proof.
+  unfold do_free. destruct (p =? 0); [auto|]. destruct (assoc p (s_reg s)) as [o|]; [|auto].
+  destruct (assoc p (s_heap s)) as [b|].
+  - destruct (l_size _ =? 0); [auto|]. destruct (layout_eqb _ _); auto.
+  - destruct o as [|[|len]]; auto.
+Qed.
+
+Lemma step_strings cfg s o :
+  good_strings cfg -> texts_inv s -> op_texts_okb o = true ->
+  texts_inv (fst (step cfg s o)) /\ res_ok cfg (snd (step cfg s o)).
+Proof.
+  intros Hg Hinv Ho. pose proof Hinv as [Hc [Hk Hu]]. pose proof Hg as [_ [_ Hnames]].
+  destruct o; cbn [step op_texts_okb] in *.
+  - split; [now apply get_heap_texts | now apply get_heap_res].
+  - destruct text as [t|]; [|cbn; auto]. split; [exact Hinv | now apply write_static_res].
+  - destruct (len =? 0); cbn; auto.
+  - split; [now apply do_free_texts|]. unfold do_free.
+    destruct (p =? 0); [exact I|]. destruct (assoc p (s_reg s)) as [ow|]; [|exact I].
+    destruct (assoc p (s_heap s)) as [b|].
+    + destruct (l_size _ =? 0); [exact I|]. destruct (layout_eqb _ _); exact I.
+    + destruct ow as [|[|len]]; exact I.
+  - destruct r as [l|]; cbn [fst snd res_ok]; [|auto]. split; [|exact I].
+    repeat split; cbn [s_cand s_kb s_up set_cand]; auto. intros l' Hl'. inversion Hl'; subst. exact Ho.
+  - cbn. unfold int_of_bool. auto.
+  - destruct (s_cand s) as [[|x r]|] eqn:E.
+    + split; [exact Hinv | now apply alloc_cstring_res].
+    + specialize (Hc _ eq_refl). cbn [forallb] in Hc. apply andb_true_iff in Hc as [Hx Hr].
+      apply text_okb_split in Hx as [Hxv Hxn]. split.
+      * apply get_heap_texts. repeat split; cbn [s_cand s_kb s_up set_cand]; auto.
+        intros l' Hl'. inversion Hl'; subst. exact Hr.
+      * now apply get_heap_res.
+    + split; [exact Hinv | now apply alloc_cstring_res].
+  - destruct (s_cand s) as [[|x r]|] eqn:E; try (cbn; auto; fail).
+    specialize (Hc _ eq_refl). cbn [forallb] in Hc. apply andb_true_iff in Hc as [Hx Hr]. split.
+    + unfold write_static. cbn [fst]. repeat split; cbn [s_cand s_kb s_up set_cand set_buf]; auto.
+      intros l' Hl'. inversion Hl'; subst. exact Hr.
+    + now apply write_static_res.
+  - cbn; auto.
+  - cbn. unfold int_of_bool. auto.
+  - destruct (s_int s) as [[|x r]|]; cbn; auto.
+  - cbn [fst snd res_ok]. split; [|exact I]. repeat split; cbn [s_cand s_kb s_up set_kb]; auto.
+    intros l' Hl'. inversion Hl'; subst. exact Hnames.
+  - cbn. unfold int_of_bool. auto.
+  - destruct (s_kb s) as [[|x r]|] eqn:E.
+    + split; [exact Hinv | now apply alloc_cstring_res].
+    + specialize (Hk _ eq_refl). cbn [forallb] in Hk. apply andb_true_iff in Hk as [Hx Hr].
+      apply text_okb_split in Hx as [Hxv Hxn]. split.
+      * apply get_heap_texts. repeat split; cbn [s_cand s_kb s_up set_kb]; auto.
+        intros l' Hl'. inversion Hl'; subst. exact Hr.
+      * now apply get_heap_res.
+    + split; [exact Hinv | now apply alloc_cstring_res].
+  - destruct (s_kb s) as [[|x r]|] eqn:E; try (cbn; auto; fail).
+    specialize (Hk _ eq_refl). cbn [forallb] in Hk. apply andb_true_iff in Hk as [Hx Hr]. split.
+    + unfold write_static. cbn [fst]. repeat split; cbn [s_cand s_kb s_up set_kb set_buf]; auto.
+      intros l' Hl'. inversion Hl'; subst. exact Hr.
+    + now apply write_static_res.
+  - cbn [fst snd res_ok]. split; [|exact I]. repeat split; cbn [s_cand s_kb s_up set_up]; auto.
+    intros h Hh. inversion Hh; subst. destruct (up_owns cfg); exact Ho.
+  - destruct (s_up s) as [h|] eqn:E; [|cbn; auto].
+    specialize (Hu _ eq_refl).
+    assert (Hnone : texts_inv (set_up s None)).
+    { repeat split; cbn [s_cand s_kb s_up set_up]; auto. intros h' Hh'. discriminate. }
+    assert (Hset : forall h', forallb entry_okb (up_rest h') = true -> texts_inv (set_up s (Some h'))).
+    { intros h' Hh'. repeat split; cbn [s_cand s_kb s_up set_up]; auto. intros h2 H2. inversion H2; subst. exact Hh'. }
+    destruct h as [[|e r]|tok [|] [|e r]]; cbn [fst snd up_rest] in *;
+      try (destruct (stale tok (tb_tok (s_tb s))); cbn [fst snd]);
+      (split; [first [exact Hinv | exact Hnone | now apply Hset] | exact I]).
+  - destruct (s_up s) as [h|] eqn:E; [|cbn; auto].
+    specialize (Hu _ eq_refl).
+    assert (Hset : forall h', forallb entry_okb (up_rest h') = true -> texts_inv (set_up s (Some h'))).
+    { intros h' Hh'. repeat split; cbn [s_cand s_kb s_up set_up]; auto. intros h2 H2. inversion H2; subst. exact Hh'. }
+    destruct h as [[|e r]|tok [|] [|e r]]; cbn [fst snd up_rest forallb] in *;
+      try (destruct (stale tok (tb_tok (s_tb s))); cbn [fst snd]);
+      first [ split; [exact Hinv | exact I]
+            | apply andb_true_iff in Hu as [He Hr]; split; [apply Hset; exact Hr | now apply up_get_item_res] ].
+  - destruct (tb_apply muts (s_tb s) (s_dirty_level s)) as [tb dl].
+    destruct (end_of_key && (0 <? dl)); cbn; auto.
+Qed.
+
+Lemma run_strings cfg : good_strings cfg ->
+  forall ops s, texts_inv s -> forallb op_texts_okb ops = true -> Forall (res_ok cfg) (run cfg s ops).
+Proof.
+  intros Hg. induction ops as [|o r IH]; intros s Hs Hops; [constructor|].
+  cbn [forallb] in Hops. apply andb_true_iff in Hops as [Ho Hr].
+  cbn [run]. destruct (step_strings cfg s o Hg Hs Ho) as [Hs' Hx].
+  destruct (step cfg s o) as [s' x]. cbn [fst snd] in *. constructor; [exact Hx | now apply IH].
+Qed.
+
+Lemma init_texts fb : texts_inv (init fb).
+Proof. repeat split; cbn; intros; discriminate. Qed.
+
+Theorem strings_wellformed cfg : good_strings cfg ->
+  forall fb ops, forallb op_texts_okb ops = true -> Forall (res_ok cfg) (run cfg (init fb) ops).
+Proof. intros Hg fb ops H. apply run_strings; [exact Hg | apply init_texts | exact H]. Qed.
